@@ -370,3 +370,43 @@ func TestExhaustiveSmallTables(t *testing.T) {
 	}
 	vlib.Rec.Exhaustive(space, complete)
 }
+
+// TestHTTPPathAllowLists enumerates, for an HTTP server with two (thorough: also three) websocket paths over a table of
+// two channels, every combination of per-path allow-lists {all, [x], [y], [x,y]} and every path the client may use:
+// what a path serves must depend on that path's own list only. (The random draws above reach a server with several
+// paths, differing lists, a non-last path in use and a request that tells the lists apart only rarely.)
+func TestHTTPPathAllowLists(t *testing.T) {
+	shard, shards := vlib.Shard()
+	tb := []string{"a", "echo"}
+	lists := [][]string{nil, {"a"}, {"echo"}, {"a", "echo"}}
+	idx := 0
+	run := func(eps []endpoint) {
+		for use := range eps {
+			idx++
+			if idx%shards != shard {
+				continue
+			}
+			d := caseDesc{Kind: vlib.CarHTTP, Table: tb, Endpoints: eps, Use: use, Requests: []string{"a", "echo", "A", "a"}}
+			problem, inconclusive, configErr := runCase(d)
+			if inconclusive {
+				vlib.Rec.Inconclusive("bind")
+				continue
+			}
+			record(d, configErr)
+			if problem != "" {
+				vlib.Rec.Violation(map[string]interface{}{"property": "C03", "case": d, "problem": problem})
+				t.Fatalf("C03 %+v: %s", d, problem)
+			}
+		}
+	}
+	for _, l0 := range lists {
+		for _, l1 := range lists {
+			run([]endpoint{{Path: "/ws/p0", Allow: l0}, {Path: "/ws/p1", Allow: l1}})
+			if vlib.Thorough() {
+				for _, l2 := range lists {
+					run([]endpoint{{Path: "/ws/p0", Allow: l0}, {Path: "/ws/p1", Allow: l1}, {Path: "/ws/p2", Allow: l2}})
+				}
+			}
+		}
+	}
+}
